@@ -5,6 +5,8 @@ CONSTANTS
   SpecSet = {"s2"}
   SizeSet = {"A", "B", "dyn"}
   TermSet = {1}
+  KindSet = {"path", "pil", "url"}
+  PeerVars = {}
   FaultSteps = {}
 VIEW DumpView
 CONSTRAINT Bound
